@@ -46,7 +46,7 @@ ORIGINS = {
 
 def main():
     matrix = {}
-    for fn in ("MATRIX_quick.txt", "MATRIX_round2.txt", "MATRIX_round3.txt"):
+    for fn in ("MATRIX_quick.txt", "MATRIX_round2.txt", "MATRIX_round3.txt", "MATRIX_round4.txt"):
         p = os.path.join(S, fn)
         if not os.path.exists(p):
             continue
@@ -58,6 +58,10 @@ def main():
     p2 = os.path.join(S, "round2_info.json")
     if os.path.exists(p2):
         extra = json.load(open(p2))
+    extra4 = {}
+    p4 = os.path.join(S, "round4_info.json")
+    if os.path.exists(p4):
+        extra4 = json.load(open(p4))
     extra3 = {}
     p3 = os.path.join(S, "round3_info.json")
     if os.path.exists(p3):
@@ -76,6 +80,9 @@ def main():
         elif name in extra3:
             prop, what, needs = extra3[name]
             origin = "sub-agent (property text + private worktree only), round 3"
+        elif name in extra4:
+            prop, what, needs = extra4[name]
+            origin = "sub-agent (property text + private worktree only), round 4"
         elif name in ORIGINS:
             prop, what, needs = ORIGINS[name]
             origin = "reverse of a fix: commit in /repo"
